@@ -280,6 +280,7 @@ fn main() {
             "random-big" => mode_random_big(&mut j),
             "spy" => mode_spy(&mut j),
             "delegate" => mode_delegate(&mut j),
+            "pauses" => mode_pauses(&mut j),
             "delegate-faults" => mode_delegate_faults(&mut j),
             "one" => mode_one(&mut j),
             m => {
@@ -933,6 +934,118 @@ fn mode_delegate_faults(j: &mut Judge) {
         }
         if only.is_some() || j.rep.violation_count >= 12 {
             break;
+        }
+    }
+}
+
+
+/// Real pauses between calls (1.3 s and 2.6 s of wall-clock time; the histories run side by side): a buffered sink -
+/// used directly, through a client, or behind a queuing sink that sits idle meanwhile - writes nothing "after a
+/// while". (Hour-long pauses are covered on Miri's virtual clock by `miri_time`; this is the native counterpart, which
+/// also sees code that reads the wall clock.)
+fn mode_pauses(j: &mut Judge) {
+    use cadence::prelude::*;
+    let rounds = j.args.u64("rounds", 1);
+    for round in 0..rounds {
+        let mut joins = Vec::new();
+        for variant in 0..7u64 {
+            let pauses: [u64; 2] = if (variant + round) % 2 == 0 { [1300, 2600] } else { [2600, 1300] };
+            joins.push(std::thread::spawn(move || -> Result<(usize, Vec<Step>, &'static str), String> {
+                let cap = 64usize;
+                let (rx, spy) = BufferedSpyMetricSink::with_capacity(None, Some(cap));
+                let label: &'static str;
+                let mut queue: Option<QueuingMetricSink> = None;
+                let client = match variant {
+                    0 => {
+                        label = "W2-pauses";
+                        StatsdClient::from_sink("", spy)
+                    }
+                    1 => {
+                        label = "W5-client-pauses";
+                        StatsdClient::from_sink("", SharedSink(Arc::new(spy)))
+                    }
+                    v => {
+                        label = ["W5-queue-pauses", "W5-queue(cap)-pauses", "W5-queue(handler)-pauses", "W5-queue(cap+handler)-pauses", "W5-queue(two handles)-pauses"][(v - 2) as usize];
+                        let q = match v {
+                            2 | 6 => QueuingMetricSink::from(spy),
+                            3 => QueuingMetricSink::with_capacity(spy, 16),
+                            4 => QueuingMetricSink::builder().with_error_handler(|_e| {}).build(spy),
+                            _ => QueuingMetricSink::builder().with_capacity(16).with_error_handler(|_e| {}).build(spy),
+                        };
+                        queue = Some(q.clone());
+                        StatsdClient::from_sink("", q)
+                    }
+                };
+                let mut steps = Vec::new();
+                let mut sent = 0u64;
+                let take = |rx: &crossbeam_channel::Receiver<Vec<u8>>| -> Vec<Attempt> {
+                    let mut a = Vec::new();
+                    while let Ok(b) = rx.try_recv() {
+                        a.push(Attempt { bytes: Some(b), out: AOut::Ok });
+                    }
+                    a
+                };
+                for (k, pause) in pauses.iter().enumerate() {
+                    let m = client.count(&format!("pause{}_{}", variant, k), 1i64).map_err(|e| e.to_string())?;
+                    sent += 1;
+                    if let Some(q) = &queue {
+                        let t0 = std::time::Instant::now();
+                        while q.drained() < sent {
+                            if t0.elapsed().as_secs() > 60 {
+                                return Err("the queuing sink did not hand a metric over within 60 s".into());
+                            }
+                            std::thread::yield_now();
+                        }
+                        // (drained is counted before the wrapped sink is called: give the call itself a moment)
+                        std::thread::sleep(std::time::Duration::from_millis(20));
+                    }
+                    let text = cadence::Metric::as_metric_str(&m).as_bytes().to_vec();
+                    let n = text.len();
+                    steps.push(Step { op: Op::Emit(text), attempts: take(&rx), res: Res::OkN(n) });
+                    std::thread::sleep(std::time::Duration::from_millis(*pause));
+                    // a read-only step: whatever arrived during the pause was written without need
+                    steps.push(Step { op: Op::Query, attempts: take(&rx), res: Res::OkUnit });
+                }
+                if variant == 6 {
+                    // one of two handles goes away, then another pause
+                    drop(queue.take());
+                    std::thread::sleep(std::time::Duration::from_millis(1300));
+                    steps.push(Step { op: Op::Query, attempts: take(&rx), res: Res::OkUnit });
+                }
+                let fres = match client.flush() {
+                    Ok(()) => Res::OkUnit,
+                    Err(_) => Res::Err(None),
+                };
+                steps.push(Step { op: Op::Flush, attempts: take(&rx), res: fres });
+                drop(queue.take());
+                drop(client);
+                let mut attempts = Vec::new();
+                let t0 = std::time::Instant::now();
+                loop {
+                    match rx.recv_timeout(std::time::Duration::from_millis(200)) {
+                        Ok(b) => attempts.push(Attempt { bytes: Some(b), out: AOut::Ok }),
+                        Err(crossbeam_channel::RecvTimeoutError::Disconnected) => break,
+                        Err(crossbeam_channel::RecvTimeoutError::Timeout) => {
+                            if t0.elapsed().as_secs() > 60 {
+                                return Err("wrapped sink not released within 60 s after the client was dropped".into());
+                            }
+                        }
+                    }
+                }
+                steps.push(Step { op: Op::Drop, attempts, res: Res::Dropped });
+                Ok((cap, steps, label))
+            }));
+        }
+        for jh in joins {
+            match jh.join() {
+                Ok(Ok((cap, steps, label))) => {
+                    j.judge(cap, "\n", &steps, vec![("rounds", "1".into())], label);
+                    j.rep.obs("histories_with_real_pauses", 1);
+                    j.rep.obs("seconds_paused_with_lines_buffered", 4);
+                }
+                Ok(Err(why)) => j.rep.inconclusive(format!("pauses: {}", why)),
+                Err(_) => j.rep.inconclusive("pauses: a history thread panicked"),
+            }
         }
     }
 }
